@@ -129,6 +129,13 @@ FIXED = [
                     "    def m(self):\n        return super().m()\nX1().m()"),
     ("metaclass-self", "class M(type, metaclass=M):\n    pass\nM"),
     ("nested-self-call", "def n1(f):\n    return f(f)\nn1(n1)"),
+    ("type-comment-self", "foo = int\nfoo = foo  # type: foo\nfoo"),
+    ("type-comment-self-in-function", "def k():\n    bar = int\n    bar = bar  # type: bar\n    bar"),
+    ("annotation-self", "ann: ann = ann\nann"),
+    ("annotation-cycle", "p1: p2 = 1\np2: p1 = 2\np1"),
+    ("augmented-self", "q = 1\nq += q\nq"),
+    ("with-self", "with w1 as w1:\n    w1"),
+    ("except-self", "try:\n    pass\nexcept e1 as e1:\n    e1"),
     ("y-combinator", "def Y(f):\n    return (lambda x: x(x))(lambda x: f(lambda *a: x(x)(*a)))\nY(Y)"),
 ]
 
